@@ -28,11 +28,26 @@ impl vstd::std_specs::convert::TryFromSpecImpl<Evaluated> for Amount {
     open spec fn obeys_try_from_spec() -> bool { false }
     open spec fn try_from_spec(v: Evaluated) -> Result<Amount, EvalError> { arbitrary() }
 }
+// at most one commodity; a non-zero bare number is not an amount
 impl vstd::std_specs::convert::TryFromSpecImpl<Evaluated> for PostingAmount {
-    open spec fn obeys_try_from_spec() -> bool { false }
-    open spec fn try_from_spec(v: Evaluated) -> Result<PostingAmount, EvalError> { arbitrary() }
+    open spec fn obeys_try_from_spec() -> bool { true }
+    open spec fn try_from_spec(v: Evaluated) -> Result<PostingAmount, EvalError> {
+        match v {
+            Evaluated::Number(x) => if x.val() == 0real { Ok(PostingAmount::Zero) } else { Err(EvalError::AmountRequired) },
+            Evaluated::Commodities(a) =>
+                if a.ncomm() == 0 { Ok(PostingAmount::Zero) }
+                else if a.ncomm() == 1 { Ok(PostingAmount::Single(a.single_entry())) }
+                else { Err(EvalError::PostingAmountRequired) },
+        }
+    }
 }
+// exactly one commodity; bare numbers (zero included) and multi-commodity sums are rejected
 impl vstd::std_specs::convert::TryFromSpecImpl<Evaluated> for SingleAmount {
-    open spec fn obeys_try_from_spec() -> bool { false }
-    open spec fn try_from_spec(v: Evaluated) -> Result<SingleAmount, EvalError> { arbitrary() }
+    open spec fn obeys_try_from_spec() -> bool { true }
+    open spec fn try_from_spec(v: Evaluated) -> Result<SingleAmount, EvalError> {
+        match v {
+            Evaluated::Number(x) => if x.val() == 0real { Err(EvalError::SingleAmountRequired) } else { Err(EvalError::AmountRequired) },
+            Evaluated::Commodities(a) => if a.ncomm() == 1 { Ok(a.single_entry()) } else { Err(EvalError::SingleAmountRequired) },
+        }
+    }
 }
